@@ -34,7 +34,7 @@ LEVEL_NOTE = (
 )
 TECHNIQUE = "property-based testing (Hypothesis) against a brute-force reference sum; call-log invariants + coverage-guided fuzzing stage (atheris/libFuzzer driving the same strategy and oracle)"
 BUDGET = {"quick": 2500, "thorough": 80000}
-FUZZ = {"quick": 3200, "thorough": 160000}  # executions of the coverage-guided stage (vlib/fuzz.py)
+FUZZ = {"quick": 3200, "thorough": 32000}  # executions of the coverage-guided stage (vlib/fuzz.py)
 RULE = (
     "case = (structure in {free, adjoint_pair A^dag.A, hermitian_square W.W, sandwich A^dag.H.A, recurrence S=A+c(S.S)}, "
     "2-4 factors, block-grid dims 1-3, block sizes 1-2, 1-3 infinite dims, value mode int / complex-int / object-dtype matrices or "
